@@ -30,7 +30,7 @@ POOLS = {
     "real": ["www", "lemonde", "fr", "co", "uk", "blog"],
     "idn": ["télérama", "fr", "рф", "www", "bücher"],
     # A-labels whose payload starts with a letter of the ACE prefix itself (xn--nio-8ma, xn--xnon-bpa, xn--nrnberg-n2a)
-    "idn2": ["ni\u00f1o", "com", "x\u00e9non", "n\u00fcrnberg", "www"],
+    "idn2": ["ni\u00f1o", "com", "x\u00e9non", "rh\u00f4ne-alpes", "n\u00fcrnberg", "www"],  # …and an A-label with a hyphen inside its ASCII part (xn--rhne-alpes-sbb)
     "edge": ["localhosting", "com", "x-1", "a1", "1a"],
     "digits": ["1", "22", "com", "a"],
     # labels that are string-suffixes of each other: whole labels must be compared
